@@ -2,6 +2,7 @@
 From Cctp Require Import Lib.Bytes Lib.SMap Lib.Text Lib.Bech32 Lib.Hex Lib.Keccak.
 From Cctp Require Import Model.Codec Model.State Model.Attest Model.Ledger Model.Handlers Model.Chain.
 From Cctp Require Import Proofs.MonadFacts Proofs.FlowFacts Proofs.CallFacts Proofs.MoneyFacts Proofs.CodecFacts Proofs.FrameFacts.
+From Cctp Require Import Gen.GoH_ReplaceMessage Gen.GoH_ReplaceDepositForBurn.
 
 (* Replace-message succeeds only for an original that is validly attested under the attester set and
    threshold stored NOW (so an attestation by a since-rotated set is rejected), originated on Noble
@@ -67,6 +68,13 @@ Proof.
   - apply deliver_not_ok in O as [-> _]. reflexivity.
 Qed.
 
+(* ReplaceMessage and ReplaceDepositForBurn as translated from the Go source are the model handlers (go_X_ok: forall e request h, eq_or_unmodelled (go_X e request h) (handler e (X request) h): same result and same state wherever the model gives a verdict at all, i.e. except on denominations outside the character set the model folds; for the two helpers the right-hand side is send_message / deposit_for_burn). The statement is about the Gallina program that tools/goextract TRANSLATED from the Go source of /repo on this run (Gen/GoH_*.v, Gen/GoF_*.v; meaning of the Go constructs: Gen/GoSem.v). For a function the translator could not read the conjunct is True (Gen/<file> names the reason, the evidence lists it) and the tie for it is the differential execution alone. *)
+Theorem C09_go_replace_handlers_are_the_model :
+  go_ReplaceMessage_ok /\
+  go_ReplaceDepositForBurn_ok.
+Proof. split; [exact go_ReplaceMessage_ok_proof|]. exact go_ReplaceDepositForBurn_ok_proof. Qed.
+
 Print Assumptions C09_replace_message_only_if_and_output.
 Print Assumptions C09_replace_deposit_only_if_and_output.
 Print Assumptions C09_replacements_change_nothing.
+Print Assumptions C09_go_replace_handlers_are_the_model.
